@@ -599,6 +599,9 @@ void World::apply(const Json::Value& op) {
       v["path"] = rel;
       make(v);
     }
+  } else if (o == "psi-total") {
+    if (Cg* c = find(op.get("cg", "").asString()))
+      c->mem_some.total += op.get("inc", 0).asUInt64();
   } else if (o == "bump") {
     if (Cg* c = find(op.get("cg", "").asString())) {
       c->memstatSet("pgscan", c->memstatGet("pgscan") + op.get("pgscan", 0).asInt64());
